@@ -449,21 +449,21 @@ package plenccodec
 //@   safety C04 C11
 //@   assigns[C10,C11] nothing
 //@   writes ptr 24
-//@   ensures[C01,C09] len(data) == 0 ==> err == nil && n == 0 && load64(ptr) == 0 && load64(ptr + 8) == 0 && load64(ptr + 16) == 0      # no body: the zero time
 //@   ensures[C03,C05] err == nil ==> n == len(data)
 //@   loop 1 invariant[C04] 0 <= offset && offset <= l && l == len(data)
 //@   loop 1 decreases l - offset
 //@   ensures[C04,C05] err == nil ==> 0 <= n && n <= len(data)
+//@   ensures[C01,C09] len(data) == 0 ==> err == nil && n == 0 && load64(ptr) == 0 && load64(ptr + 8) == 0 && load64(ptr + 16) == 0      # no body: the zero time
 
 //@ func plenccodec.TimeCompatCodec.Read
 //@   safety C04 C11
 //@   assigns[C10,C11] nothing
 //@   writes ptr 24
-//@   ensures[C01,C09] len(data) == 0 ==> err == nil && n == 0 && load64(ptr) == 0 && load64(ptr + 8) == 0 && load64(ptr + 16) == 0      # no body: the zero time
 //@   ensures[C03,C05] err == nil ==> n == len(data)
 //@   loop 1 invariant[C04] 0 <= offset && offset <= l && l == len(data)
 //@   loop 1 decreases l - offset
 //@   ensures[C04,C05] err == nil ==> 0 <= n && n <= len(data)
+//@   ensures[C01,C09] len(data) == 0 ==> err == nil && n == 0 && load64(ptr) == 0 && load64(ptr + 8) == 0 && load64(ptr + 16) == 0      # no body: the zero time
 
 //@ func plenccodec.BQTimestampCodec.Read
 //@   safety C04 C11
